@@ -70,7 +70,8 @@ pub enum SnapshotUrgency {
 impl SnapshotUrgency {
     /// Calculate the urgency for a snapshot based on its age in days
     fn for_days(config: &ServerConfig, days: i64) -> Self {
-        if days >= config.snapshot_days * 3 / 2 {
+        // (widened: `snapshot_days * 3` overflows i64 for targets above i64::MAX / 3)
+        if (days as i128) >= (config.snapshot_days as i128) * 3 / 2 {
             SnapshotUrgency::High
         } else if days >= config.snapshot_days {
             SnapshotUrgency::Low
@@ -81,7 +82,8 @@ impl SnapshotUrgency {
 
     /// Calculate the urgency for a snapshot based on its age in versions
     fn for_versions_since(config: &ServerConfig, versions_since: u32) -> Self {
-        if versions_since >= config.snapshot_versions * 3 / 2 {
+        // (widened: `snapshot_versions * 3` overflows u32 for targets above u32::MAX / 3)
+        if (versions_since as u64) >= (config.snapshot_versions as u64) * 3 / 2 {
             SnapshotUrgency::High
         } else if versions_since >= config.snapshot_versions {
             SnapshotUrgency::Low
